@@ -444,9 +444,22 @@ impl<Writer: Write> Mp4Writer<Writer> {
     }
 
     pub(crate) fn max_end_pts(&self) -> Option<u64> {
+        // Largest presentation end (pts + duration) over all samples of a track.  With
+        // reordered video the last sample in decode order is not the last one presented.
         fn track_end(samples: &[SampleInfo], last_delta: Option<u32>) -> Option<u64> {
-            let last = samples.last()?;
-            Some(last.pts + u64::from(last_delta.unwrap_or(0)))
+            let last_idx = samples.len().checked_sub(1)?;
+            samples
+                .iter()
+                .enumerate()
+                .map(|(idx, sample)| {
+                    let duration = match sample.duration {
+                        Some(d) => d,
+                        None if idx == last_idx => last_delta.unwrap_or(0),
+                        None => 0,
+                    };
+                    sample.pts.saturating_add(u64::from(duration))
+                })
+                .max()
         }
 
         let video_end = track_end(&self.video_samples, self.video_last_delta);
